@@ -179,7 +179,8 @@ def run(ctx):
     hs = []
     for _ in range(40 if q else 600):
         w, h = rng.randint(8, 40), rng.randint(8, 30)
-        wild = rng.random() < 0.4             # wild: mostly rejected by the area limit; tame: reaches the renderer
+        wild = rng.random() < 0.5             # wild coefficients: mostly rejected by the area limit; tame: reaches the renderer
+        far = rng.random() < 0.3              # control points beyond the position limit (rejected while parsing)
         img = {"w": w, "h": h, "bits": 8, "gray": rng.random() < 0.15, "buf16": True, "orient": 1, "anim": None, "ecs": []}
         nch = 1 if img["gray"] else 3
         f = {"gshift": 1, "is_last": True, "tr": [], "pals": [], "tree": ("L", 0, 5, 0, 1), "wp": None,
@@ -193,7 +194,7 @@ def run(ctx):
                 for c in range(3):
                     coeffs[32 * c] = rng.choice([0, 1, -1, 3, 40, -40, 2000])
                 coeffs[96] = rng.choice([0, 1, -1, 2, 5, 300, -300])
-            lim = BIGS if wild else BIGS[:11]
+            lim = BIGS if far else BIGS[:9]
             deltas = [(rng.choice(lim) if rng.random() < 0.5 else rng.randint(-9, 9) or 1,
                        rng.choice(lim) if rng.random() < 0.5 else rng.randint(-9, 9)) for _ in range(rng.randint(0, 5))]
             start = (abs(rng.choice(lim)), abs(rng.choice(lim))) if i == 0 else (rng.choice(lim), rng.choice(lim))
